@@ -147,13 +147,19 @@ def run(chk):
         chk.sample(rec)
 
     bad = validate(chk, recs, "real Atlas outputs")
+    perclause = {}
     for rec, verdict in bad:
         inst = f"ms={rec['ms']} o={rec['o']} t={rec['t']}"
         if verdict.startswith("C19:"):
-            chk.violation(f"{verdict} {inst}", f"Atlas path violates {verdict} for {inst}: {rec}", rec)
+            # one violation per failing clause and kind of instance (sorted / unsorted matching scales)
+            kind = "sorted" if rec["ms"] == sorted(rec["ms"]) else "unsorted"
+            perclause.setdefault((verdict, kind), []).append(inst)
+            if len(perclause[(verdict, kind)]) == 1:
+                chk.violation(f"{verdict} matching-scales={kind}", f"Atlas path violates {verdict} for {inst}: {rec}", rec)
         else:
             chk.diag(f"{verdict} {inst}")
 
+    chk.note("violating_instances", {f"{k[0]} {k[1]}": len(v) for k, v in perclause.items()})
     # ---- binding demonstration: a corrupted record must be rejected ----------------------
     good = next(x for x in recs if len(x["path"]) >= 3 and not x["err"])
     import copy
